@@ -91,6 +91,54 @@ def make_isometry(family, n, m, seed):
         return (np.eye(2 ** n, dtype=complex)[:, cols]) * phases
     if family == "real_signed":
         return c02.haar_real(rng, 2 ** n)[:, : 2 ** m].astype(float)
+    if family.startswith("eigphase@"):
+        # unitary W diag(exp(i phi_j)) W^dagger with phi_0 = phi, phi_1 = -phi next to Knill's `abs(arg) > 1e-7` test
+        # (isometry.py:122) and generic other phases; meaningful for m = n (for m < n the code extends V by its own null space)
+        phi = float(family.split("@")[1])
+        dim = 2 ** n
+        w = c02.haar(rng, dim)
+        ph = rng.uniform(0.5, 2.5, dim) * rng.choice([-1.0, 1.0], dim)
+        ph[0] = phi
+        if dim > 2:
+            ph[1] = -phi
+        return ((w * np.exp(1j * ph)) @ w.conj().T)[:, : 2 ** m]
+    if family.startswith("tiny_rows@"):
+        # Haar isometry whose sibling rows 2j, 2j+1 (and, n >= 2, an aligned block of four) are scaled by e: the pairs handed to
+        # Lemma 2 (`iso_norm != 0.0`, isometry.py:301) are tiny but not zero
+        e = float(family.split("@")[1])
+        dim = 2 ** n
+        a = c02.haar(rng, dim)[:, : 2 ** m]
+        j = int(rng.integers(dim // 2))
+        a[2 * j: 2 * j + 2, :] *= e
+        if n >= 3:
+            q = int(rng.integers(dim // 4))
+            a[4 * q: 4 * q + 4, :] *= e
+        qq, rr = np.linalg.qr(a)
+        return qq * (np.diagonal(rr) / np.abs(np.diagonal(rr)))
+    if family == "subnormal_pair":
+        # fixed literals: a sibling pair whose squares are subnormal, so that Lemma 2 (isometry.py:298) takes its norm from a few
+        # subnormal quanta (m = 0 only)
+        v = {1: [1.0, 4e-162], 2: [1.0, 0.0, 4e-162, 2e-162], 3: [0.6, 0, 0, 0.8j, 0, 0, 3e-162j, -4e-162]}[min(n, 3)]
+        v = np.array(v, dtype=complex)
+        for _ in range(n - 3):
+            v = np.kron(v, np.array([1.0, 0.0]))
+        return v.reshape(-1, 1)
+    if family.startswith("allclose@"):
+        # state vector (first column; further columns completed to an isometry) whose two sibling multiplexer blocks are a
+        # relative delta apart: next to the np.allclose merge of qiskit's UCGate._simplify (rtol 1e-5)
+        delta = float(family.split("@")[1])
+        f0 = np.array([0.6, 0.8])
+        f1 = np.array([0.6, 0.8 * (1 + delta)])
+        f1 = f1 / np.linalg.norm(f1)
+        v = np.concatenate([0.6 * f0, 0.8 * f1]).astype(complex)
+        for _ in range(n - 2):
+            v = np.kron(v, np.array([1, 1j]) / math.sqrt(2))
+        v = v / np.linalg.norm(v)
+        if n < 2:
+            v = np.array([0.6, 0.8], dtype=complex)
+        a = np.concatenate([v.reshape(-1, 1), c02.haar(rng, 2 ** n)[:, : 2 ** m - 1]], axis=1) if m > 0 else v.reshape(-1, 1)
+        qq, rr = np.linalg.qr(a)
+        return qq * (np.diagonal(rr) / np.abs(np.diagonal(rr)))
     return c02.make_unitary(family, n, seed)[:, : 2 ** m]
 
 
@@ -327,7 +375,14 @@ def run_job(job, disable_a2=False):
             # did qiskit's UCGate synthesis fail on exactly-unitary 2x2 inputs?  (kernel defect, classified narrowly)
             blocks = [r[4] for r in rec if r[0] == "lemma2"]
             in_unit = max([float(np.abs(b @ b.conj().T - np.eye(2)).max()) for b in blocks] or [0.0])
-            res["ucg_kernel_raise"] = bool("generalized_gates/uc.py" in tb and "_dec_ucg" in tb and in_unit <= 1e-12)
+            # ... either inside _dec_ucg, or later when circuit.inverse() re-validates a factor that UCGate's synthesis produced
+            # (UnitaryGate.transpose -> "Input matrix is not unitary"): every 2x2 matrix qclib itself hands to qiskit is a
+            # Lemma-2 output (recorded, unitary to in_unit), so a rejected matrix can only be one of qiskit's own factors
+            in_dec = "generalized_gates/uc.py" in tb and "_dec_ucg" in tb
+            in_inv = ("Input matrix is not unitary" in res["raised"] and "generalized_gates/unitary.py" in tb
+                      and ("inverse" in tb or "adjoint" in tb))
+            res["ucg_kernel_raise"] = bool((in_dec or in_inv) and in_unit <= 1e-12)
+            res["raise_site"] = "_dec_ucg" if in_dec else ("inverse" if in_inv else "other")
             res["lemma2_unitarity"] = in_unit
             return res
         res["width"] = circ.num_qubits
@@ -347,7 +402,7 @@ def run_job(job, disable_a2=False):
                           float(np.abs(u[:, : iso.shape[1]] - iso).max()))
             elif r[0] == "lemma2":
                 _, a, b, basis, out = r
-                nrm = math.sqrt(abs(a) ** 2 + abs(b) ** 2)
+                nrm = math.hypot(abs(a), abs(b))      # no underflow of the squares (amplitudes ~1e-162 are generated)
                 l2 = max(l2, float(np.abs(out @ out.conj().T - np.eye(2)).max()))
                 if nrm > 0:
                     e = np.zeros(2)
@@ -404,9 +459,16 @@ def judge(ctx, job, res):
         raise RuntimeError("harness exception in oracle job %r: %s" % (job, (res or {}).get("harness_exc")))
     ctx.count(f"oracle:{scheme}")
     if "raised" in res and res.get("ucg_kernel_raise"):
+        site = ("(_dec_ucg) raised" if res.get("raise_site") != "inverse" else
+                "produced a factor that qiskit's own UnitaryGate rejects when the circuit is inverted,")
         ctx.fail(f"decompose-ucgate-kernel-raises:{scheme}:n={n}:m={m}:{fam}{':1d' if as1d else ''}",
-                 "qiskit's UCGate synthesis (_dec_ucg) raised on 2x2 blocks that are unitary to "
+                 f"qiskit's UCGate synthesis {site} on 2x2 blocks that are unitary to "
                  f"{res['lemma2_unitarity']:.1e}: " + res["raised"], replay_dict(job, {"traceback": res.get("tb")}))
+        return
+    if "raised" in res and fam == "subnormal_pair":
+        ctx.fail(f"decompose-subnormal-pair:{scheme}:n={n}:m={m}", "qclib raised on a valid state vector with a pair of amplitudes "
+                 "(4e-162, 2e-162) whose squares are subnormal (Lemma 2 normalises by a norm that is off by several percent): "
+                 + res["raised"], replay_dict(job, {"traceback": res.get("tb")}))
         return
     if "raised" in res:
         ctx.fail(f"decompose-raises:{scheme}:n={n}:m={m}:{fam}{':1d' if as1d else ''}",
@@ -436,6 +498,12 @@ def judge(ctx, job, res):
                  f"precision loss caused by qiskit's A.2 two-qubit re-synthesis inside qclib.unitary.unitary(apply_a2=True): "
                  f"max |Operator[:, :2^m] - V| = {res['err']:.3e}; <= 1e-7 with the pass disabled",
                  replay_dict(job, {"observed_err": res["err"]}))
+    elif res["err"] > TOL and fam == ALLCLOSE_PROBE_FAMILY and scheme == "ccd" and res["err"] <= 1e-5:
+        ctx.count("allclose-merge")
+        ctx.fail(f"isometry-allclose-merge:{scheme}:n={n}:m={m}:delta=3e-6",
+                 f"max |Operator(circuit)[:, :2^m] - V| = {res['err']:.3e}: two sibling multiplexer blocks 3e-6 apart are merged by "
+                 "np.allclose (rtol 1e-5) in qiskit's UCGate._simplify; 3e-5 apart (family allclose@3e-05) the result is exact",
+                 replay_dict(job, {"observed_err": res["err"]}))
     elif res["err"] > TOL:
         ctx.fail(key, f"max |Operator(circuit)[:, :2^m] - V| = {res['err']:.3e}", replay_dict(job, {"observed_err": res["err"]}))
     else:
@@ -459,6 +527,58 @@ def oracle_jobs(ctx, nmax, reps):
                         jobs.append(("iso", n, m, fam, seed, scheme, False))
                         if m == 0 and fam in ("haar", "real_signed", "identity"):
                             jobs.append(("iso", n, m, fam, seed, scheme, True))
+    return jobs
+
+
+ALLCLOSE_PROBE_FAMILY = "allclose@3e-06"
+
+
+def boundary_jobs(ctx):
+    """Inputs next to the float thresholds of isometry.py / unitary.py / ucr.py and of the qiskit kernels they call (the size
+    and index boundaries - every (n, m) with m = 0, 1, n-1, n, n = 1 without controls, Knill from n = 2, 1-D vectors - are AT and
+    one off in oracle_jobs already; _k_s/_b conditions are tied for every (k, i))."""
+    jobs = []
+
+    def seed():
+        return ctx.rng.getrandbits(32)
+
+    # Knill: `abs(arg[i]) > 1e-7` - an eigenphase a factor 3 below (term skipped: error 3e-8), 3 above, and at 1e-6
+    for n in (2, 3):
+        for phi in (3e-8, 3e-7, 1e-6):
+            sd = seed()
+            for scheme in ("knill", "csd", "ccd"):
+                jobs.append(("iso", n, n, f"eigphase@{phi:g}", sd, scheme, False))
+            ctx.count(f"boundary:knill-eigenphase-vs-1e-7:{phi:g}")
+    # Lemma 2: `iso_norm != 0.0` - sibling rows tiny but not zero
+    for n in (2, 3):
+        for e in (1e-12, 3e-9):
+            for m in range(0, n + 1):
+                sd = seed()
+                for scheme in ("ccd", "csd", "knill"):
+                    jobs.append(("iso", n, m, f"tiny_rows@{e:g}", sd, scheme, False))
+            ctx.count(f"boundary:lemma2-pair-tiny-nonzero:{e:g}")
+    # fixed input on which qiskit's UCGate synthesis yields a factor it rejects itself (rows of magnitude 1e-17)
+    jobs.append(("iso", 3, 2, "tiny_rows@3e-09", 7, "ccd", False))
+    # a pair with subnormal squares (fixed literals; the key is decompose-subnormal-pair:* when the code raises)
+    for n in (2, 3):
+        for scheme in ("ccd", "csd", "knill"):
+            jobs.append(("iso", n, 0, "subnormal_pair", 0, scheme, False))
+        ctx.count("boundary:lemma2-pair-with-subnormal-squares")
+    # sibling multiplexer blocks next to the np.allclose merge of UCGate._simplify (ccd): negligible / probe / outside
+    for n in (2, 3):
+        for delta in (3e-9, 3e-5):
+            for m in (0, 1):
+                jobs.append(("iso", n, m, f"allclose@{delta:g}", seed(), "ccd", False))
+            ctx.count(f"boundary:allclose-rtol:{delta:g}")
+        jobs.append(("iso", n, 0, ALLCLOSE_PROBE_FAMILY, seed(), "ccd", False))
+        ctx.count("boundary:allclose-rtol:3e-06(finding-probe)")
+    # csd scheme = unitary 'qsd' in isometry mode: eigenvalue cluster of the demultiplexing step, ucr angle cut
+    for fam in ("block_near_equal@1e-09", "block_near_equal@1e-07", "block_near_equal@1e-05", "cs_tiny@3e-09", "cs_tiny@3e-08",
+                "cs_tiny@1e-06"):
+        sd = seed()
+        for m in (2, 3):
+            jobs.append(("iso", 3, m, fam, sd, "csd", False))
+        ctx.count("boundary:csd:" + fam)
     return jobs
 
 
@@ -571,11 +691,15 @@ def run(ctx):
     run_tie(ctx)
     probe_fixed(ctx)
     probe_call_forms(ctx)
-    jobs = oracle_jobs(ctx, 5 if ctx.quick else 6, 2 if ctx.quick else 3)
+    jobs = oracle_jobs(ctx, 5 if ctx.quick else 6, 2 if ctx.quick else 3) + boundary_jobs(ctx)
     for job, res in zip(jobs, run_jobs(jobs)):
         judge(ctx, job, res)
     flush_deferred(ctx)
     ctx.notes.append("Knill is exercised for n>=2 only (the code rejects n=1); tolerances: operator 1e-7, kernel specs 1e-8")
+    ctx.notes.append("boundary families: eigphase@phi (eigenphases 3e-8 / 3e-7 / 1e-6 around Knill's 1e-7 cut, m = n), tiny_rows@e (pairs "
+                     "handed to Lemma 2 tiny but not zero), allclose@delta (sibling blocks 3e-9 / 3e-5 apart: either side of the np.allclose "
+                     "merge of qiskit's UCGate._simplify; 3e-6 apart is the known merge, keys isometry-allclose-merge:*), and C02's "
+                     "block_near_equal@eps / cs_tiny@t through the csd scheme")
 
 
 def search(ctx, hints):
